@@ -1,2 +1,3 @@
 pub mod bfs;
 pub mod chunk;
+pub mod router_mc;
